@@ -69,10 +69,18 @@ impl Search {
       SearchConfig::WithJustfileAndWorkingDirectory {
         justfile,
         working_directory,
-      } => Ok(Self {
-        justfile: Self::clean(invocation_directory, justfile),
-        working_directory: Self::clean(invocation_directory, working_directory),
-      }),
+      } => {
+        let justfile = Self::clean(invocation_directory, justfile);
+
+        if justfile.parent().is_none() {
+          return Err(SearchError::JustfileHadNoParent { path: justfile });
+        }
+
+        Ok(Self {
+          justfile,
+          working_directory: Self::clean(invocation_directory, working_directory),
+        })
+      }
     }
   }
 
@@ -133,10 +141,18 @@ impl Search {
       SearchConfig::WithJustfileAndWorkingDirectory {
         justfile,
         working_directory,
-      } => Ok(Self {
-        justfile: Self::clean(invocation_directory, justfile),
-        working_directory: Self::clean(invocation_directory, working_directory),
-      }),
+      } => {
+        let justfile = Self::clean(invocation_directory, justfile);
+
+        if justfile.parent().is_none() {
+          return Err(SearchError::JustfileHadNoParent { path: justfile });
+        }
+
+        Ok(Self {
+          justfile,
+          working_directory: Self::clean(invocation_directory, working_directory),
+        })
+      }
     }
   }
 
